@@ -554,6 +554,7 @@ def stepLife (st : St) (op : String) (kv : KV) : St × String :=
     | _ => none
   match op, lop with
   | "l.reset", _ => ({ st with life := {} }, "ok ")
+  | "l.fail", _ => (st, fmtLife st.life)       -- a refused construction creates no mapping and no handle
   | _, some o => let s' := Lifetime.step st.life o; ({ st with life := s' }, fmtLife s')
   | _, none => (st, "bad-op")
 
@@ -574,6 +575,7 @@ def stepAtom (st : St) (op : String) (kv : KV) : St × String :=
     | _ => none
   match op, aop with
   | "t.init", _ => let s := Atomic.init (kv.nat "m"); ({ st with atom := s }, fmtAtom s none)
+  | "t.space", _ => (st, fmtAtom st.atom none)     -- `GuestAddressSpace for &M / Rc<M> / Arc<M>`: no step of the replaceable cell
   | _, some a => let (s', r) := Atomic.step st.atom a; ({ st with atom := s' }, fmtAtom s' r)
   | _, none => (st, "bad-op")
 
